@@ -23,6 +23,8 @@ func checkC17(r *core.Run) {
 	r.Rule("CAP-did: the nine binding/payment prefixes of module did are written only from {Binding, Update, UpdatePaymentAddress, did genesis, did v2 migration}")
 	r.Rule("T-anchored: identifier-validation patterns (the CAIP-10 account id pattern) are constants anchored with ^ and $")
 	ruleAnchoredPatterns(r, "T-anchored")
+	r.Rule("T-unbind-all: in MsgUpdate the account ids whose reverse index (Did) is removed are collected one per element of the list whose forward records (AccountId, AccountAuth, account list) are removed")
+	ruleUnbindAll(r, "T-unbind-all", "did/keeper.msgServer.Update")
 	r.Rule("T-loopvar: in the did message handlers no address of a per-loop variable is stored into a slice/field inside its loop")
 	ruleLoopVarAddr(r, "T-loopvar", "did/keeper.msgServer.")
 	r.Assume(aDeps)
